@@ -500,6 +500,10 @@ package libinjection
 //@   cost     <= 8 * len(b) + len(a) + 8
 //@   loop 1 invariant [C09] $cost <= 6 * pos + (firstAbs(arr(b), off(b) + pos, off(b) + len(b), '&') - (off(b) + pos)) && len(bs) <= pos
 //@   ensures  [C07] @reference_prefix result ==> len(local(bs)) >= len(a) && (forall j in [0, len(a)): local(bs)[j] == a[j])
+//@   loop 1 step [C07 C19] @normalise (athead(first) && cb <= 32 ==> first && len(bs) == athead(len(bs))) &&
+//@                 (!(athead(first) && cb <= 32) ==> !first && ((cb == 0 || cb == 10) ==> len(bs) == athead(len(bs))) &&
+//@                      (cb != 0 && cb != 10 ==> len(bs) == athead(len(bs)) + 1 && bs[len(bs) - 1] == cb % 256 && !(cb >= 'a' && cb <= 'z')))
+//@   loop 1 step [C07 C19] @prefix_kept forall j in [0, athead(len(bs))): bs[j] == athead(bs[j])
 
 //@ func isBlackURL
 //@   modifies nothing
@@ -918,11 +922,11 @@ package libinjection
 
 //@ func sqliInit
 //@   modifies s.*, s.tokenVec[*].*
-//@   ensures  [C01 C05 C12] @fullstate aliases(s.input, input) && freshState(s, flags)
+//@   ensures  [C01 C05 C06 C12] @fullstate aliases(s.input, input) && freshState(s, flags)
 
 //@ func (*sqliState).reset
 //@   modifies s.*, s.tokenVec[*].*
-//@   ensures  [C01 C05 C12] @fullstate aliases(s.input, old(s.input)) && freshState(s, flags)
+//@   ensures  [C01 C05 C06 C12] @fullstate aliases(s.input, old(s.input)) && freshState(s, flags)
 
 //@ func (*sqliState).tokenize
 //@   requires wfS(s) && statsOK(s)
@@ -939,6 +943,9 @@ package libinjection
 //@   ensures  [C14] @plain old(plainMode(s) && atBoundary(s) && plainStats(s)) ==> atBoundary(s) && plainStats(s) && (result ==> plainTok(s, s.current))
 //@   loop 1 invariant [C14] old(plainMode(s) && atBoundary(s) && plainStats(s)) ==> atBoundary(s) && plainStats(s)
 
+//@ spec mergeableA(c int) bool = c == sqliTokenTypeKeyword || c == sqliTokenTypeBareWord || c == sqliTokenTypeOperator || c == sqliTokenTypeUnion ||
+//@      c == sqliTokenTypeFunction || c == sqliTokenTypeExpression || c == sqliTokenTypeTSQL || c == sqliTokenTypeSQLType
+//@ spec mergeableB(c int) bool = mergeableA(c) || c == sqliTokenTypeLogicOperator
 //@ func (*sqliState).merge
 //@   requires wfT(tokenA) && wfT(tokenB)
 //@   modifies tokenA.category, tokenA.pos, tokenA.len, tokenA.val
@@ -948,6 +955,11 @@ package libinjection
 //@   justify  readsState2
 //@   defines  [C14] @nopair NOPAIR(s.input) && old(plainTok(s, tokenA) && plainTok(s, tokenB)) ==> !result
 //@   ensures  [C14] @via_lookup result ==> KWU(local(tmp)) != 0
+//@   ensures  [C06] @merge_rule (result ==> mergeableA(old(tokenA.category)) && mergeableB(old(tokenB.category)) && old(tokenA.len) + old(tokenB.len) + 1 <= 32 &&
+//@                      KWU(local(tmp)) != 0 && tokenA.category == KWU(local(tmp)) && tokenA.len == min(len(local(tmp)), 31) && aliases(tokenA.val, local(tmp)[:tokenA.len])) &&
+//@                 (!result ==> !(mergeableA(old(tokenA.category)) && mergeableB(old(tokenB.category)) && old(tokenA.len) + old(tokenB.len) + 1 <= 32) || KWU(local(tmp)) == 0)
+//@   ensures  [C06] @merge_text mergeableA(old(tokenA.category)) && mergeableB(old(tokenB.category)) && old(tokenA.len) + old(tokenB.len) + 1 <= 32 ==> len(local(tmp)) == old(tokenA.len) + old(tokenB.len) + 1 && local(tmp)[old(tokenA.len)] == ' ' &&
+//@                 (forall j in [0, old(tokenA.len)): local(tmp)[j] == old(tokenA.val[j])) && (forall j in [0, old(tokenB.len)): local(tmp)[old(tokenA.len) + 1 + j] == old(tokenB.val[j]))
 
 //@ spec toks5wf(s *sqliState) bool = wfT(s.tokenVec[0]) && wfT(s.tokenVec[1]) && wfT(s.tokenVec[2]) && wfT(s.tokenVec[3]) && wfT(s.tokenVec[4])
 
